@@ -1,6 +1,7 @@
 import OrsoVerif.Lemmas.EstimatorsTop
 import OrsoVerif.Lemmas.DistogramState
 import OrsoVerif.Lemmas.ProfileEst
+import OrsoVerif.Lemmas.HistObj
 import Mathlib.Algebra.Order.Ring.Rat
 import Mathlib.Algebra.Field.Rat
 import Mathlib.Data.Rat.Floor
@@ -606,6 +607,209 @@ theorem built_histOK {s : RState K} {L : List (K × K)} {B : List K} (h : Built 
     cases hM : s.max with
     | none => exact absurd (hi.maxNone hM) hne
     | some M => exact ⟨m, M, rfl, rfl, hi.inc, hi.pos, hne, hi.within m M hm hM⟩
+
+/-! ## Round 3: histogram objects — streams judged against the inserted values, operands after a `+` -/
+
+section objects
+open Gen.DistogramObj (updBounds addTarget AddTarget noneOr someAnd)
+
+set_option linter.unusedSimpArgs false in
+set_option linter.unusedTactic false in
+set_option linter.unreachableTactic false in
+/-- **The bounds statements of `update`, with the control flow they have in the source now**
+(`Gen.DistogramObj.updBounds`: the `if` / `elif` / `else` structure is translated, not only the two
+tests), **compute the running minimum and maximum of the stream from every state** — also from the
+empty histogram, where the first value moves *both* bounds, and for a value that is a new minimum of
+a histogram whose maximum is still missing.  `minO` / `maxO` are what the reference machine of C13
+(and with it every `Built` history below) records.  With the second test chained to the first
+(`elif`) this no longer checks: the first value of a stream would leave the maximum `None`. -/
+theorem update_bounds_exact (mn mx : Option K) (v : K) :
+    updBounds mn mx v = (some (minO mn v), some (maxO mx v)) := by
+  cases mn <;> cases mx <;>
+    simp only [updBounds, noneOr, someAnd, minO, maxO, Option.isNone_none, Option.isNone_some,
+      Option.isSome_none, Option.isSome_some, decide_eq_true_eq, gt_iff_lt, ge_iff_le] <;>
+    split_ifs <;> simp_all <;> (first | done | (exfalso; linarith) | (apply le_antisymm <;> linarith))
+
+/-- The executable faithful machine (`Model/Distogram.lean`, `bumpBounds`) sets the bounds as those
+statements do. -/
+theorem faithful_bounds_follow_the_source (h : Hist K) (v : K) :
+    ((bumpBounds h v).min, (bumpBounds h v).max) = updBounds h.min h.max v := by
+  rw [update_bounds_exact]
+  cases hm : h.min <;> cases hM : h.max <;>
+    simp [bumpBounds, hm, hM, minO, maxO, Gen.DistogramFlow.bumpMin, Gen.DistogramFlow.bumpMax,
+      Gen.DistogramOps.bumpChained]
+
+set_option linter.unusedSimpArgs false in
+set_option linter.unusedTactic false in
+set_option linter.unreachableTactic false in
+/-- **The bounds statements of `Distogram.__add__`, with their control flow** (`Gen.DistogramObj.addBounds`:
+`if operand.min is not None: dgram.min = min(self.min, operand.min); dgram.max = max(self.max, operand.max)`
+translated statement by statement, Python's `min` / `max` included), **set the sum's bounds to the smaller
+minimum and the larger maximum** — what the reference `addRef` records (`optMin` / `optMax`) — whenever the
+right operand's bounds are both there or both missing and a non-empty right operand made the sum non-empty.
+A slip between the four attributes (`max(self.max, operand.min)`) or a falsy test (`if operand.min:`) breaks it. -/
+theorem add_bounds_exact (mn mx omn omx : Option K) (h1 : omn.isSome → mn.isSome ∧ mx.isSome)
+    (h2 : omn = none ↔ omx = none) :
+    Gen.DistogramObj.addBounds mn mx omn omx = (optMin mn omn, optMax mx omx) := by
+  cases mn <;> cases mx <;> cases omn <;> cases omx <;>
+    simp only [Gen.DistogramObj.addBounds, noneOr, someAnd, Gen.DistogramObj.pyMin, Gen.DistogramObj.pyMax, optMin, optMax,
+      Option.isNone_none, Option.isNone_some, Option.isSome_none, Option.isSome_some, decide_eq_true_eq, gt_iff_lt, ge_iff_le] <;>
+    simp_all <;> (try split_ifs) <;> simp_all <;> (first | done | (exfalso; linarith) | (apply le_antisymm <;> linarith))
+
+set_option linter.unusedSimpArgs false in
+set_option linter.unusedTactic false in
+set_option linter.unreachableTactic false in
+/-- **The bounds statements of `Distogram.bulkload`, with their control flow** (`Gen.DistogramObj.bulkBounds`: the
+`if self.min is None: … else: …` at its end), **widen the bounds to the data's** — `minO` / `maxO` of the old bound
+and `values.min()` / `values.max()`, what the reference `bulkRef` records — from every state whose bounds are both
+there or both missing.  Overwriting instead of widening (`self.min = values.min()` in the `else` branch) breaks it. -/
+theorem bulk_bounds_exact (mn mx : Option K) (lo hi : K) (h : mn = none ↔ mx = none) :
+    Gen.DistogramObj.bulkBounds mn mx lo hi = (some (minO mn lo), some (maxO mx hi)) := by
+  cases mn <;> cases mx <;>
+    simp only [Gen.DistogramObj.bulkBounds, noneOr, someAnd, Gen.DistogramObj.pyMin, Gen.DistogramObj.pyMax, minO, maxO,
+      Option.isNone_none, Option.isNone_some, Option.isSome_none, Option.isSome_some, decide_eq_true_eq, gt_iff_lt, ge_iff_le] <;>
+    simp_all <;> (try split_ifs) <;> simp_all <;> (first | done | (exfalso; linarith) | (apply le_antisymm <;> linarith))
+
+/-- **The estimators are exact at the ends of the *inserted values*** — not merely at what the
+histogram reports: for every history (`Built s L B`: `L` the inserted (value, weight) pairs, `B` the
+data's bounds — for a plain `update` the value itself) that inserted anything, there are `lo`, `hi`
+that *are* the minimum and the maximum of the inserted values, and `quantile(0) = lo`,
+`quantile(1) = hi`, `count_at(lo) = 0`, `count_at(hi)` = the total inserted weight (when `lo < hi`),
+`count_at` is `None` below `lo` and above `hi` and answers everywhere in between. -/
+theorem built_exact_at_true_ends {s : RState K} {L : List (K × K)} {B : List K} (h : Built s L B)
+    (hne : s.bins ≠ []) (floor : K → K) (hf : FloorLike floor (mass s.bins)) :
+    ∃ lo hi, IsMinOf (some lo) B ∧ IsMaxOf (some hi) B ∧
+      quantile floor s.bins s.min s.max 0 = some lo ∧ quantile floor s.bins s.min s.max 1 = some hi ∧
+      countAt s.bins s.min s.max lo = some 0 ∧
+      (lo < hi → countAt s.bins s.min s.max hi = some (mass L)) ∧
+      (∀ x, x < lo ∨ hi < x → countAt s.bins s.min s.max x = none) ∧
+      (∀ x, lo ≤ x → x ≤ hi → ∃ r, countAt s.bins s.min s.max x = some r) := by
+  obtain ⟨lo, hi, hlo, hhi, ok⟩ := built_histOK h hne
+  obtain ⟨_, hm, _, hmin, hmax⟩ := built_facts h
+  rw [hlo] at hmin
+  rw [hhi] at hmax
+  refine ⟨lo, hi, hmin, hmax, ?_, ?_, ?_, ?_, ?_, ?_⟩
+  · rw [hlo, hhi]; exact quantile_0 floor ok hf
+  · rw [hlo, hhi]; exact quantile_1 floor ok hf
+  · rw [hlo, hhi]; exact countAt_min ok
+  · intro hlt; rw [hlo, hhi, ← hm]; exact countAt_max ok hlt
+  · intro x hx; rw [hlo, hhi]; exact (countAt_outside (bins := s.bins) (some lo) (some hi) x).2 hx
+  · intro x h1 h2; rw [hlo, hhi]; exact countAt_defined ok h1 h2
+
+/-- **A histogram built by nothing but `update()`** — a stream of values in *any* order (ascending,
+descending, the largest first, a single value, a constant stream), any positive weights, any bin
+limit: the estimators are exact at the stream's own smallest and largest value and total weight. -/
+theorem stream_exact_at_true_ends (cap : Nat) (hcap : 1 ≤ cap) (vs : List (K × K)) (hne : vs ≠ [])
+    (hpos : ∀ u ∈ vs, 0 < u.2) (floor : K → K)
+    (hf : FloorLike floor (mass (mergeRef (RState.init cap) vs).bins)) :
+    let s := mergeRef (RState.init cap : RState K) vs
+    ∃ lo hi, (lo ∈ vs.map (·.1) ∧ ∀ v ∈ vs.map (·.1), lo ≤ v) ∧ (hi ∈ vs.map (·.1) ∧ ∀ v ∈ vs.map (·.1), v ≤ hi) ∧
+      quantile floor s.bins s.min s.max 0 = some lo ∧ quantile floor s.bins s.min s.max 1 = some hi ∧
+      countAt s.bins s.min s.max lo = some 0 ∧ (lo < hi → countAt s.bins s.min s.max hi = some (mass vs)) ∧
+      (∀ x, x < lo ∨ hi < x → countAt s.bins s.min s.max x = none) := by
+  intro s
+  have hb : Built s vs (vs.map (·.1)) := by
+    have := built_mergeRef (Built.init (K := K) cap hcap) vs hpos
+    simpa using this
+  have hmass : mass s.bins = mass vs := (built_facts hb).2.1
+  have hbins : s.bins ≠ [] := by
+    intro h0
+    rw [h0] at hmass
+    obtain ⟨u, rest, rfl⟩ := List.exists_cons_of_ne_nil hne
+    have h1 : 0 < u.2 := hpos u (by simp)
+    have h2 := mass_nonneg (l := rest) (fun b hb => hpos b (by simp [hb]))
+    simp only [mass, List.map_nil, List.sum_nil, List.map_cons, List.sum_cons] at hmass h2
+    linarith
+  obtain ⟨lo, hi, a, b, c, d, e, f, g, _⟩ := built_exact_at_true_ends hb hbins floor hf
+  exact ⟨lo, hi, a, b, c, d, e, f, g⟩
+
+/-- **For a stream that never exceeds the bin limit the count estimate is monotone and bounded
+everywhere — full strength, the open finding C14-K01 does not reach it.**  A histogram built by
+nothing but `update()` whose bins were never merged (`fitsFrom`: no update ever pushes the number of
+bins over the limit — in particular every stream of at most `cap` values, `fitsFrom_of_length`) has
+its first bin *at* its minimum, so `count_at` has no left tail: on the whole observed range it
+answers, stays within `[0, total inserted weight]` and is non-decreasing.  (K01 needs a first bin
+that was merged away from the minimum: a trimmed histogram, or a bulk load.) -/
+theorem untrimmed_stream_countAt_full (cap : Nat) (hcap : 1 ≤ cap) (vs : List (K × K)) (hne : vs ≠ [])
+    (hpos : ∀ u ∈ vs, 0 < u.2) (hfit : fitsFrom (RState.init cap : RState K) vs) :
+    let s := mergeRef (RState.init cap : RState K) vs
+    ∃ lo hi, s.min = some lo ∧ s.max = some hi ∧
+      (∀ x, lo ≤ x → x ≤ hi → ∃ r, countAt s.bins s.min s.max x = some r ∧ 0 ≤ r ∧ r ≤ mass vs) ∧
+      (∀ x y r1 r2, lo ≤ x → x ≤ y → y ≤ hi → countAt s.bins s.min s.max x = some r1 →
+        countAt s.bins s.min s.max y = some r2 → r1 ≤ r2) := by
+  intro s
+  have hb : Built s vs (vs.map (·.1)) := by
+    have := built_mergeRef (Built.init (K := K) cap hcap) vs hpos
+    simpa using this
+  have hmass : mass s.bins = mass vs := (built_facts hb).2.1
+  have hbins : s.bins ≠ [] := by
+    intro h0
+    rw [h0] at hmass
+    obtain ⟨u, rest, rfl⟩ := List.exists_cons_of_ne_nil hne
+    have h1 : 0 < u.2 := hpos u (by simp)
+    have h2 := mass_nonneg (l := rest) (fun b hb => hpos b (by simp [hb]))
+    simp only [mass, List.map_nil, List.sum_nil, List.map_cons, List.sum_cons] at hmass h2
+    linarith
+  obtain ⟨lo, hi, hlo, hhi, ok⟩ := built_histOK hb hbins
+  have hleft : LeftTailOK s.bins lo :=
+    headMin_leftTailOK (mergeRef_headMin vs _ (headMin_init cap) hfit) hlo
+  refine ⟨lo, hi, hlo, hhi, ?_, ?_⟩
+  · intro x h1 h2
+    rw [hlo, hhi, ← hmass]
+    exact countAt_bounds_partial ok hleft h1 h2
+  · intro x y r1 r2 h1 h2 h3 e1 e2
+    rw [hlo, hhi] at e1 e2
+    exact countAt_mono_partial ok hleft h1 h2 h3 e1 e2
+
+/-- **What `Distogram.__add__` merges into** (`Gen.DistogramObj.addTarget`, regenerated from the source
+on every run) **is not a shallow copy of the left operand**: `merge(self, operand)` updates the left
+operand in place — the sum *is* the left operand — or a refactor works on a deep copy.  With
+`merge(copy(self), operand)` the sum and the left operand are two objects sharing one bin list, this
+no longer checks, and `operands_after_add_ok` goes with it. -/
+theorem add_target_sound : addTarget ≠ AddTarget.shallowCopy := by decide
+
+/-- **Every object is still a well-formed histogram after it took part in a `+`**: for histories `a`,
+`b`, the sum `c = a + b`, and any further updates of `c` afterwards, the left operand — whatever the
+source makes of it (`leftAfter addTarget`: the sum itself, or untouched) — and the sum are again states
+of a history, so every theorem of this file applies to them: asked again, the left operand's
+estimators are monotone, within *its own* minimum and maximum and exact at them.  (The right
+operand is never written to.) -/
+theorem operands_after_add_ok {a b : RState K} {L1 L2 : List (K × K)} {B1 B2 : List K}
+    (ha : Built a L1 B1) (hb : Built b L2 B2) (us : List (K × K)) (hus : ∀ u ∈ us, 0 < u.2) :
+    (∃ L B, Built (mergeRef (addRef a b) us) L B) ∧
+    (∃ L B, Built (leftAfter addTarget a (mergeRef (addRef a b) us)) L B) := by
+  have hsum : Built (mergeRef (addRef a b) us) (L1 ++ L2 ++ us) (B1 ++ B2 ++ us.map (·.1)) :=
+    built_mergeRef (Built.add ha hb) us hus
+  refine ⟨⟨_, _, hsum⟩, ?_⟩
+  cases h : addTarget with
+  | self => exact ⟨_, _, hsum⟩
+  | shallowCopy => exact absurd h add_target_sound
+  | deepCopy => exact ⟨_, _, ha⟩
+
+end objects
+
+/-- **What goes wrong with a shallow copy** (`merge(copy(self), operand)`): `a` holds 20, `b` holds 29,
+`c = a + b`.  The left operand afterwards holds the bins of the sum with its own old bounds
+`[20, 20]`; its median estimate is 24.5 — outside what it reports as its range. -/
+theorem shallow_copy_breaks_the_left_operand :
+    let a : RState ℚ := updateRef (RState.init 8) 20 1
+    let b : RState ℚ := updateRef (RState.init 8) 29 1
+    let left := leftAfter Gen.DistogramObj.AddTarget.shallowCopy a (addRef a b)
+    left.bins = [(20, 1), (29, 1)] ∧ left.min = some 20 ∧ left.max = some 20 ∧
+    quantile (fun x => (x.floor : ℚ)) left.bins left.min left.max (1 / 2) = some (49 / 2) := by
+  decide +kernel
+
+/-- **What goes wrong when the second bounds test is chained to the first** (`if … elif …`, "a value
+cannot move both bounds"): the stream 9, 2, 5 ends with maximum 5 although 9 was inserted. -/
+theorem chained_bounds_lose_the_maximum :
+    let chained : Option ℚ → Option ℚ → ℚ → Option ℚ × Option ℚ := fun mn mx v =>
+      if Gen.DistogramObj.noneOr mn (fun m => decide (m > v)) then (some v, mx)
+      else if Gen.DistogramObj.noneOr mx (fun m => decide (m < v)) then (mn, some v) else (mn, mx)
+    let s1 := chained none none 9
+    let s2 := chained s1.1 s1.2 2
+    let s3 := chained s2.1 s2.2 5
+    s1 = (some 9, none) ∧ s3 = (some 2, some 5) := by
+  decide +kernel
 
 /-- Non-vacuity: a concrete histogram satisfies the hypotheses, and the estimators take the
 expected values on it (left tail, a centre, interior, right tail; quantiles at 0, 1/2, 1). -/
